@@ -39,6 +39,10 @@ def generate(seed, tier):
     if typ == "density":
         cfg["na"] = r.randint(1, 3) if (route == "module" or r.random() < 0.5) else None
     cfg["module_randomised"] = r.random() < 0.7
+    cfg["gpu_flag"] = r.random() < 0.2  # gpu=True on a CPU-only machine: warning + CPU model
+    if typ == "density" and route == "sizes" and r.random() < 0.12:
+        # a purification without auxiliary (or hidden) units is a legal, if degenerate, architecture
+        cfg[r.choice(["na", "nh"])] = 0
     cfg["module_zero_weights"] = route == "module" and r.random() < 0.25
     # a single-precision user RBM (the positive wavefunction evaluates, samples and trains it as it is)
     cfg["module_float32"] = route == "module" and typ == "positive" and r.random() < 0.3
@@ -112,17 +116,21 @@ def execute(plan):
                 if c.get("module_float32") and c["type"] == "positive":
                     module = module.float()
                 module_before = net_snapshot(module)
-                state = new_state(c["type"], c["nv"] + 5, None, None, module=module)  # sizes must come from the module
+                state = new_state(c["type"], c["nv"] + 5, None, None, module=module, gpu=bool(c.get("gpu_flag")))  # sizes must come from the module
             else:
-                state = new_state(c["type"], c["nv"], c.get("nh"), c.get("na"))
+                state = new_state(c["type"], c["nv"], c.get("nh"), c.get("na"), gpu=bool(c.get("gpu_flag")))
         except Exception as exc:  # noqa: BLE001
             run.lib_exception(exc, f"constructing {c['type']} state from {c['route']}", type=c["type"], route=c["route"])
             run.trace = trace + ["ctor-raised"]
             return run.result()
         rng.arm_global(plan["sub"])
         two = len(state.networks) == 2
-        want_nh = c.get("nh") or c["nv"]
-        want_na = (c.get("na") or c["nv"]) if c["type"] == "density" else None
+        if c["type"] == "density":  # PurificationRBM: only None means "default"; an explicit 0 is a size
+            want_nh = c["nv"] if c.get("nh") is None else c["nh"]
+            want_na = c["nv"] if c.get("na") is None else c["na"]
+        else:
+            want_nh = c.get("nh") or c["nv"]
+            want_na = None
         # the phase network's auxiliary bias: exactly zero for states built from sizes, from a user RBM
         # whose auxiliary bias is zero, and after reinitialisation
         aux_expect = {"v": None}
@@ -184,13 +192,13 @@ def execute(plan):
                     rbm = getattr(state, net)
                     for n, p in named(rbm):
                         if n.startswith("weights"):
-                            if not bool((p.data != 0).any()):
+                            if p.numel() and not bool((p.data != 0).any()):
                                 run.violate("20-init", f"{net}.{n} is all zero after {tag}", **detail)
                         elif bool((p.data != 0).any()):
                             run.violate("20-init", f"{net}.{n} is not exactly zero after {tag}", name=n, **detail)
                 if two:
                     for (n, pa), (_, pp) in zip(named(state.rbm_am), named(state.rbm_ph)):
-                        if n.startswith("weights") and pa.shape == pp.shape and torch.equal(pa.data, pp.data):
+                        if n.startswith("weights") and pa.numel() and pa.shape == pp.shape and torch.equal(pa.data, pp.data):
                             run.violate("20-init", f"amplitude and phase {n} are identical after {tag}", **detail)
             if c["type"] == "density":
                 if not finite(state):
@@ -224,7 +232,7 @@ def execute(plan):
                     for n in before[net]:
                         if before[net][n].shape != after[net][n].shape:
                             run.violate("20-reinit", f"reinitialise changed the shape of {net}.{n}", net=net, name=n, type=c["type"])
-                        elif n.startswith("weights") and np.array_equal(before[net][n], after[net][n]):
+                        elif n.startswith("weights") and before[net][n].size and np.array_equal(before[net][n], after[net][n]):
                             run.violate("20-reinit", f"reinitialise did not redraw {net}.{n}", net=net, name=n, type=c["type"])
                 if c["type"] == "density":
                     aux_expect["v"] = torch.zeros(want_na, dtype=torch.double)
